@@ -102,6 +102,8 @@ fn main() {
         match prop {
             #[cfg(feature = "full")]
             "C18" => props::c18::worker(ctx, i, n),
+            #[cfg(feature = "full")]
+            "C04" => props::c04::worker(ctx),
             _ => machinery("no worker mode for this property"),
         }
         std::process::exit(0);
